@@ -83,6 +83,13 @@ CHECKS.update({
           "DESIGN.md section 5, C20"),
 })
 
+CHECKS.update({
+ "C10": E("runtime oracle: collision_details / collides / near compared with a brute-force f64 triangle/triangle distance oracle over the property's relevant pair list; schedule stress (rayon pools 1..16 x repeats x injected delays) with the in-repo hook event log checking which pairs were evaluated",
+          "Exploration: 6e3 / 4e5 synthetic cells x postures x safety tables (verdicts for ~25 pairs each, plus near() under a second table) and 60 / 2e3 cells x 18 schedules each with event-log checking. Coarse meshes (all triangle edges >= 5 cm) and fine meshes are both generated.",
+          "Trusted base: /verif/harness/src/mesh.rs (segment/segment, point/triangle, segment/triangle primitives), refmodel link frames. Ambiguity band 1e-4 m (5e-4 m for fine meshes) around each threshold. One open known finding (parry small-triangle intersections).",
+          "DESIGN.md section 5, C10"),
+})
+
 def main():
     props = [json.loads(l) for l in open('/verif/properties.jsonl')]
     hooks_commits = subprocess.run(['git','-C','/repo','log','--format=%H %s'],capture_output=True,text=True).stdout.splitlines()
